@@ -20,15 +20,16 @@ import torch
 from .. import sdl, vsched
 from ..core import Ctx, Failure
 
-THEOREMS: List[str] = []
-LEAN_MODULES: List[str] = []
 RULE = ("configurations from harness.sdl.gen_cfg (dataset kind x statefulness x per-worker shard sizes incl. empty/uneven x W 0-4 x "
         "batch_size None/1-4 x drop_last x prefetch_factor x persistent_workers x snapshot_every_n_steps 0/None/1/2/3/5/7 x sampler kind); "
         "every interruption position of 2 epochs is resumed. A (config, position) case is non-trivial when the position is not a snapshot "
         "boundary (steps_since_snapshot > 0), or a worker had already exhausted its shard, or the position is inside the second epoch; "
         "distinct by (config, position).")
-EXPLANATION = ""
-ASSUMPTIONS = ["worker processes are virtual (harness/vsched.py); a slice of the thorough tier uses real processes"]
+EXPLANATION = ("Lean: TDV.SP.resume_exact_* / resume_chain_* / resume_epochs* (single-process iterator: every sampler and dataset kind, "
+               "every k, chains, following epochs; the shared-generator exception is refuted and excluded explicitly) and TDV.MP.* "
+               "(multi-process protocol: schedule independence, snapshot fields, delta-at-yield). Tie: K-D of the SP model, K-T of the MP "
+               "model against the real iterators on every run. Oracle: every interruption position of two epochs on the real loader.")
+ASSUMPTIONS = ["worker processes are virtual (harness/vsched.py)"]
 
 EPOCHS = 3
 
@@ -227,7 +228,7 @@ def k_shared_generator_sp(f: Failure) -> bool:
     return f.kind in ("resume", "chain") and c.get("W") == 0 and c.get("sampler") == "shuffle_gen"
 
 
-KNOWN = {
+KNOWN_RESUME = {
     "sp-explicit-generator-next-epoch": k_shared_generator_sp,
 }
 
@@ -248,7 +249,7 @@ def _one(ctx: Ctx, job):
     return None
 
 
-def run(ctx: Ctx):
+def run_resume(ctx: Ctx):
     import torch
     torch.set_num_threads(1)
     n = ctx.n(120, 2500)
@@ -262,11 +263,9 @@ def run(ctx: Ctx):
     ctx.pmap(_one, jobs)
 
 
-def escalate(ctx: Ctx):
-    run(ctx)
 
 
-def replay(ctx: Ctx, payload) -> Tuple[bool, str]:
+def replay_resume(ctx: Ctx, payload) -> Tuple[bool, str]:
     kind, inp = payload["kind"], payload["input"]
     sub = Ctx(ctx.prop, ctx.tier, ctx.seed)
     if kind in ("resume", "clean_run", "state_dict_perturbs"):
@@ -276,3 +275,18 @@ def replay(ctx: Ctx, payload) -> Tuple[bool, str]:
     if sub.failures:
         return False, sub.failures[0].what
     return True, "resumed streams equal the uninterrupted ones"
+
+
+# ------------------------------------------------------------------------------------------------
+from . import _compose, sp_kd  # noqa: E402
+
+PARTS = [
+    _compose.Part("resume", run_resume, replay_resume, known=KNOWN_RESUME),
+    _compose.Part("sp_kd", lambda ctx: sp_kd.run_kd(ctx, 600, 6000), sp_kd.replay_kd, theorems=sp_kd.THEOREMS_C01, modules=sp_kd.LEAN_MODULES),
+]
+try:
+    from . import mp_parts
+    PARTS += mp_parts.parts("C01")
+except ImportError:
+    pass
+_compose.assemble(globals(), PARTS, RULE, EXPLANATION, ASSUMPTIONS)
